@@ -5,7 +5,8 @@ EXACTLY and in emission order as lists of (root, edge, weight) together with eve
 every implementation answer is judged against the property text: each candidate is a simple cycle through its root made of two root paths
 that meet only at the root plus one non-tree edge, recorded weight = true weight; FVS and ISO collections are sub-collections of Horton's;
 greedy selection by weight under GF(2) independence reaches the optimum weight and dimension on each collection (optimum from an own
-Horton+Gauss oracle over independently computed shortest-path trees, cross-checked against the verified reference `optw` when it builds)."""
+Horton+Gauss oracle over independently computed shortest-path trees, cross-checked against the verified reference `optw` when it builds).
+Weight types: double (A), int (AI) and long long (AL: 64-bit weights above 2^53, see props/c12.py weigh64; model and judge compute with unbounded integers)."""
 import json, heapq, os, concurrent.futures as cf
 import lib, gen
 
@@ -210,6 +211,17 @@ def gen_cases(rng, tier):
             for g in gen.all_graphs(n):
                 g2, _ = gen.weigh(rng, g, rng.choice(["unit", "ties"]))
                 cases.append("A " + gen.graph_tokens(g2))
+    # 64-bit integer weights above 2^53 (long long; c12.weigh64): cycle weights that are not doubles, distinct weights that collide as doubles
+    # (generated last: the double / int stream above is unchanged)
+    n64 = 0
+    while n64 < (70 if tier == "quick" else 600):
+        g = c12.tie_family(rng, maxn) if rng.random() < 0.45 else gen.structural(rng, maxn)
+        if g[0] > maxn: continue
+        if len(g[1]) > maxm:
+            es = list(g[1]); rng.shuffle(es); g = (g[0], es[:maxm])
+        if len(g[1]) - g[0] + gen.components(g[0], g[1]) < 1 and rng.random() < 0.8: continue      # mostly graphs with cycles
+        g, style = c12.weigh64(rng, g)
+        cases.append("AL " + gen.graph_tokens(g)); n64 += 1
     return cases
 
 
@@ -237,7 +249,7 @@ def reference_opts(cases, limit_m):
 def check(tier, seed):
     c = lib.Check(PID, tier, seed, THEOREMS)
     c.rule = ("graphs n <= %d, m <= %d from tie-heavy families (grids, hypercubes, K_ab, wheels, K_n, Petersen, theta) and gen.structural (forests, disconnected, "
-              "random), weights unit/ties/wide/pow2 (double) and unit/ties/wide (int); per graph the Horton, FVS and isometric collections with all trees; exact comparison "
+              "random), weights unit/ties/wide/pow2 (double), unit/ties/wide (int) and 64-bit weights above 2^53 with (m+4)*sum(w) < 2^63 (long long); per graph the Horton, FVS and isometric collections with all trees; exact comparison "
               "(emission order) with the model under the recovered feedback vertex set, plus the independent judge; distinct by md5; non-trivial = cycle space dimension >= 1") % ((12, 40) if tier == "quick" else (32, 90))
     c.step_prove()
     ok = c.step_model(GROUP)
@@ -280,7 +292,7 @@ def check(tier, seed):
         for i in sorted(extra, key=lambda j: len(cases[j]))[:2]:
             c.violation("candidate collections: " + verdicts[i], {"component": "c14", "case": cases[i], "impl": io[i], "model_case": mcases[i]}, True)
     return c.finish(
-        assumptions=["exact domain: positive integer-valued weights with exactly representable sums (D9, inexact doubles, is out of scope here)",
+        assumptions=["exact domain: positive integer-valued weights with exactly representable sums (double) / sums that fit the type (int, long long); D9, inexact doubles, is out of scope here",
                      "the feedback vertex set is recovered from the sources of FVSCyclesBuilder's trees and fed to the model as the pick oracle of FvsModel.greedy_fvs",
                      "std::set<Edge> / std::map<pair<size_t, Edge>, vertex> are used for membership / lookup only; boost::connected_components as an equivalence only",
                      "optimum weight: own Python Horton+Gauss oracle over independently computed shortest-path trees, cross-checked against the verified reference optw (build/model_ref) on the smaller cases"],
